@@ -183,6 +183,21 @@ def _run_iface(case):
             sde.h = lambda t, y: base.h(t, y)                                 # noqa: E731
         names_before = dict(names) if names is not None else None
         outs = []
+        if names is not None and all(hasattr(sde, v_) for v_ in names.values()) and not logqp:
+            # the same SDE object was solved before with the same keys renamed to OTHER methods (e.g. a prior sample through
+            # names={'drift': 'h'} before the posterior one): each call must use the methods named in that call
+            for key_, meth in names.items():
+                orig = getattr(sde, meth)
+                if key_ in ("drift", "diffusion", "prior_drift"):
+                    setattr(sde, meth + "_other", lambda t, y, o=orig: 0.5 * o(t, y) + 0.1)
+                elif key_ == "drift_and_diffusion":
+                    setattr(sde, meth + "_other", lambda t, y, o=orig: tuple(0.5 * x + 0.1 for x in o(t, y)))
+                else:
+                    setattr(sde, meth + "_other", lambda t, y, w, o=orig: tuple(0.5 * x + 0.1 for x in o(t, y, w)))
+            with torch.no_grad():
+                torchsde.sdeint(sde, y0, ts, method=combo["method"], dt=tm["dt"], options=dict(combo["options"]) or None,
+                                bm=sdes.make_bm(torchsde, spec, ts[0], ts[-1], case["entropy"], levy=combo["levy"]),
+                                names={k_: v_ + "_other" for k_, v_ in names.items()})
         # the caller's `names` dict is an input: the same object is passed to two consecutive solves and must neither be
         # modified nor lose its effect
         for _rep in range(2 if names is not None else 1):
